@@ -30,7 +30,7 @@ func sortNaturalFilter(array []any, key any) any {
 			// an element, and the property looked up in it, may be a drop
 			rv := reflect.ValueOf(values.ToLiquid(m))
 			kv := reflect.ValueOf(key)
-			if rv.Kind() != reflect.Map || !kv.Type().AssignableTo(rv.Type().Key()) {
+			if rv.Kind() != reflect.Map || !kv.Type().AssignableTo(rv.Type().Key()) || !kv.Comparable() {
 				return ""
 			}
 			ev := rv.MapIndex(kv)
